@@ -3,6 +3,7 @@
 #   pipes <dir>/ops.txt (a shard written by run.py, e.g. /tmp/walker-go-t/1) through the Lean driver
 #   /verif/lean/.lake/build/bin/drv_walker and shows the disagreements with <dir>/go.out,
 #   shortest op first. For `ok` lines the first differing position of the dump is marked.
+#   Works for both streams (`walk …` and `print …` ops); for print ops the four fields are compared one by one.
 import sys, subprocess, time, collections
 d = sys.argv[1]; mx = int(sys.argv[2]) if len(sys.argv) > 2 else 5
 t = time.time()
@@ -30,7 +31,23 @@ for _, o, g, l in bad[:mx]:
     print('  file', repr(name.decode('utf8', 'replace')))
     for ln in src.decode('utf8', 'replace').split('\n'):
         print('  |', ln)
-    if g.startswith('ok ') and l.startswith('ok '):
+    if o.startswith('print '):
+        gf = dict(x.split('=', 1) for x in g.split(' ') if '=' in x); lf = dict(x.split('=', 1) for x in l.split(' ') if '=' in x)
+        if not lf: print('  lean', l[:300])
+        for key in ('tree', 'walk', 'msg', 'same'):
+            a, b = gf.get(key, ''), lf.get(key, '')
+            if a == b: continue
+            k = next((i for i, (x, y) in enumerate(zip(a, b)) if x != y), min(len(a), len(b)))
+            print('  field %s differs at %d' % (key, k))
+            print('    go  ', a[max(0, k - 160):k] + ' >>> ' + a[k:k + 200])
+            print('    lean', b[max(0, k - 160):k] + ' >>> ' + b[k:k + 200])
+        if lf.get('walk') != lf.get('msg') and lf.get('walk', '').startswith('ok:'):
+            a, b = lf['walk'][3:], lf.get('msg', '')
+            k = next((i for i, (x, y) in enumerate(zip(a, b)) if x != y), min(len(a), len(b)))
+            print('  lean walk vs lean msg differ at %d' % k)
+            print('    walk', a[max(0, k - 160):k] + ' >>> ' + a[k:k + 200])
+            print('    msg ', b[max(0, k - 160):k] + ' >>> ' + b[k:k + 200])
+    elif g.startswith('ok ') and l.startswith('ok '):
         k = next((i for i, (a, b) in enumerate(zip(g, l)) if a != b), min(len(g), len(l)))
         print('  first difference at', k)
         print('  go  ', g[max(0, k - 120):k] + ' >>> ' + g[k:k + 200])
